@@ -9,6 +9,8 @@ SCOPES = ["recv", "hash", "hit", "miss", "pass", "fetch", "error", "deliver", "l
 RSTATES = ["lookup", "pass", "hash", "error", "restart", "deliver", "fetch", "deliver_stale", "hit_for_pass", "end", "other"]
 # action codes: none bare errstmt restartstmt fail r-<state>
 ACTIONS = ["none", "bare", "errstmt", "restartstmt", "fail"] + ["r-" + s for s in RSTATES]
+# "absent": the subroutine is not defined at all (a whole column of an action table, never a single round)
+ABSENT = ["absent"] * 4
 MAXR = 3          # cross-checked against Gen/SMConst.v by the check
 CACHEABLE = {200, 203, 300, 301, 302, 404, 410}
 
@@ -77,18 +79,33 @@ def variant_body(v, sc):
     return " ".join(p for p in parts if p)
 
 
+def is_absent(variants, sc):
+    ab = [v["acts"][sc] == ABSENT for v in variants]
+    assert all(ab) or not any(ab), "a subroutine is absent for every variant or for none"
+    assert all(ab) or not any("absent" in v["acts"][sc] for v in variants)
+    return all(ab)
+
+
 def build_vcl(variants):
-    """variants: 1..n variant dicts; the request header V selects one (default 0)"""
+    """variants: 1..n variant dicts; the request header V selects one (default 0).
+    Request-level features: header Canon -> vcl_recv rewrites req.url to /canon (two URLs, one hash);
+    header K -> vcl_hash adds it to req.hash (one URL, several hashes)."""
     s = ["@BACKEND@", "@DEAD@", "ratecounter c06rc {}", "penaltybox c06pb {}"]
     for sc in SCOPES:
+        if is_absent(variants, sc):
+            continue
         bodies = [variant_body(v, sc) for v in variants]
+        hoist = ""
+        if sc == "recv":
+            hoist = 'if (req.http.Canon) { set req.url = "/canon"; } '
+        if sc == "hash":
+            hoist = "if (req.http.K) { set req.hash += req.http.K; } "
         if all(b == bodies[0] for b in bodies):
-            body = bodies[0]
+            body = hoist + bodies[0]
         else:
             # declarations must not be nested in a block twice: hoist the local of recv
-            hoist = ""
             if sc == "recv" and any("declare local var.n INTEGER;" in b for b in bodies):
-                hoist = "declare local var.n INTEGER; "
+                hoist += "declare local var.n INTEGER; "
                 bodies = [b.replace("declare local var.n INTEGER;", "") for b in bodies]
             chain = []
             for i, b in enumerate(bodies):
@@ -137,10 +154,16 @@ def model_request(variants, reqs):
     for rq in reqs:
         now += rq.get("adv_ms", 0)
         v = variants[rq.get("v", 0)]
+        canon = bool(rq.get("canon")) and not is_absent(variants, "recv")
+        hk = rq.get("hk", "") if not is_absent(variants, "hash") else ""
         url = url_for(rq["path"], rq.get("st", 200), rq.get("maxage"))
-        full = "http://localhost" + url
         st = rq.get("st", 200)
         base_ttl = (rq["maxage"] if rq.get("maxage") is not None else 120) * 1000
+        full = "http://localhost" + url
+        if canon:      # vcl_recv rewrote req.url: the origin sees /canon without the query string
+            full, st, base_ttl = "http://localhost/canon", 200, 120000
+        if hk:
+            full = hashlib.sha256((full + hk).encode()).hexdigest()
         hashes, bresp, hit = [], [], []
         for r in range(MAXR + 1):
             # `set req.hash += x` replaces the hash by sha256(old ++ x) (assign.UpdateHash)
@@ -174,9 +197,13 @@ def model_request(variants, reqs):
             ops.append("(" + " ".join(os_) + ")")
         parts.append("(req %d 1 (orc %s) (hash %s) (bresp %s) (hit %s) (ops %s))" % (
             now, orc, " ".join(map(str, hashes)), " ".join(bresp), " ".join(hit), " ".join(ops)))
-        ir = {"url": url, "adv_ms": rq.get("adv_ms", 0)}
+        ir = {"url": url, "adv_ms": rq.get("adv_ms", 0), "hdr": {}}
         if len(variants) > 1:
-            ir["hdr"] = {"V": str(rq.get("v", 0))}
+            ir["hdr"]["V"] = str(rq.get("v", 0))
+        if rq.get("canon"):
+            ir["hdr"]["Canon"] = "1"
+        if rq.get("hk"):
+            ir["hdr"]["K"] = rq["hk"]
         ireqs.append(ir)
     return ("hist %d " % now) + " ".join(parts), json.dumps({"vcl": build_vcl(variants), "reqs": ireqs}), intern.ids
 
@@ -195,8 +222,9 @@ def canon_impl(reply, ids):
         flows = ",".join(f[4:] for f in (x["flows"] or []))
         obs = ",".join(m[4:] for m in (x["logs"] or []) if m.startswith("obs:"))
         xc = x["xcache"] if x["xcache"] is not None else "-"
-        out.append("R flows=%s restarts=%d cached=%d xcache=%s error=%d obs=%s" % (
-            flows, x["restarts"], 1 if x["cached"] else 0, xc, 1 if x["error"] else 0, obs))
+        xh = x["xhits"] if x.get("xhits") is not None else "-"
+        out.append("R flows=%s restarts=%d cached=%d xcache=%s xhits=%s error=%d obs=%s" % (
+            flows, x["restarts"], 1 if x["cached"] else 0, xc, xh, 1 if x["error"] else 0, obs))
     cache = sorted((ids.get(it["hash"], -1), 1 if it["fresh"] else 0, it["hits"]) for it in (d["cache"] or []))
     rc = sorted((ids.get("rc:" + k, -1), v) for k, v in (d["rc"].get("c06rc") or {}).items())
     pb = sorted(ids.get("pb:" + k, -1) for k in (d["pb"].get("c06pb") or []))
@@ -209,7 +237,7 @@ def canon_impl(reply, ids):
 # node -> action -> target ; used only by the direct oracle on the implementation
 def doc_next(node, a):
     ret = a[2:] if a.startswith("r-") else None
-    none = a == "none"
+    none = a in ("none", "absent")
     err = a == "errstmt" or ret == "error"
     rst = a == "restartstmt" or ret == "restart"
     if node == "recv":
@@ -272,47 +300,45 @@ def doc_next(node, a):
 
 def check_flow(flows, restarts, error, acts):
     """direct oracle: is the reported flow a path of the documented machine for the action table
-    `acts` (scope -> [a0..a3])?  returns None or a description of the first offence"""
+    `acts` (scope -> [a0..a3], or ABSENT for a subroutine that is not defined and leaves no flow entry)?
+    returns None or a description of the first offence"""
     if restarts > MAXR:
         return "restarts=%d exceeds the limit %d" % (restarts, MAXR)
-    if not flows:
-        return None if error else "empty flow without a reported error"
-    if flows[0] != "recv":
-        return "flow starts at vcl_%s" % flows[0]
-    r = 0
-    node = "recv"
-    for i, sc in enumerate(flows):
+    n = len(flows)
+
+    def ended(r, why):
+        if not error:
+            return why
+        if r != restarts:
+            return "reported restarts=%d but the flow re-enters vcl_recv %d times" % (restarts, r)
+        return None
+
+    def walk(node, r, i):
+        sc = "hash" if node in ("hashL", "hashP") else node
         a = acts[sc][min(r, MAXR)]
+        if a != "absent":
+            if i >= n:
+                return ended(r, "flow ends before vcl_%s without a reported error" % sc)
+            if flows[i] != sc:
+                return "documented next subroutine vcl_%s, observed vcl_%s (position %d)" % (sc, flows[i], i)
+            i += 1
         t = doc_next(node, a)
-        last = i == len(flows) - 1
-        if last:
-            if not error:
-                if t != "END":
-                    return "flow ends after vcl_%s (%s) without a reported error" % (sc, a)
-            if error and t == "END":
+        if t is None or (t == "RESTART" and r >= MAXR):
+            if i < n:
+                return "vcl_%s ended with %s (no documented successor) but vcl_%s ran next" % (sc, a, flows[i])
+            return ended(r, "vcl_%s ended with %s (no documented successor) without a reported error" % (sc, a))
+        if t == "END":
+            if i < n:
+                return "vcl_log was followed by vcl_%s" % flows[i]
+            if error and a != "absent":
                 return "error reported although vcl_log completed"
-            break
-        nxt = flows[i + 1]
-        if t is None:
-            return "vcl_%s ended with %s (no documented successor) but vcl_%s ran next" % (sc, a, nxt)
+            if r != restarts:
+                return "reported restarts=%d but the flow re-enters vcl_recv %d times" % (restarts, r)
+            return None
         if t == "RESTART":
-            if nxt != "recv":
-                return "restart from vcl_%s continued at vcl_%s" % (sc, nxt)
-            r += 1
-            node = "recv"
-        elif t == "LOOKUP":
-            if nxt not in ("hit", "miss"):
-                return "lookup continued at vcl_%s" % nxt
-            node = nxt
-        elif t == "END":
-            return "vcl_log was followed by vcl_%s" % nxt
-        else:
-            want = "hash" if t in ("hashL", "hashP") else t
-            if nxt != want:
-                return "vcl_%s ended with %s: documented successor vcl_%s, observed vcl_%s" % (sc, a, want, nxt)
-            node = t
-    if r != restarts:
-        return "reported restarts=%d but the flow re-enters vcl_recv %d times" % (restarts, r)
-    if not error and (flows.count("log") != 1 or flows[-1] != "log"):
-        return "vcl_log not exactly once and last"
-    return None
+            return walk("recv", r + 1, i)
+        if t == "LOOKUP":
+            res = [walk("hit", r, i), walk("miss", r, i)]
+            return None if None in res else res[1]
+        return walk(t, r, i)
+    return walk("recv", 0, 0)
